@@ -12,7 +12,7 @@
        positional, and an arm + a [_describe] entry for every name and visible alias of every subcommand. *)
 From ClapModel Require Import Base.Bytes Complete.AotTree Complete.AotProofs Complete.BashModel Complete.BashProofs.
 From ClapModel Require Import Complete.FishModel Complete.BuildTexts Complete.ZshModel Escape.EscapeModel.
-From Coq Require Import Lia.
+From Coq Require Import String Lia.
 Open Scope N_scope.
 Open Scope list_scope.
 
@@ -341,4 +341,417 @@ Proof.
     assert (x = sc) by (apply (same_child c b x sc m n Hl Hb Hns Hsn Hx Hsc Hm Hnsc Hbm)). subst x.
     rewrite <- Em.
     apply (IH sc Hsc _ n Esc (linked_sub _ _ Hl Hsc) (nospace_sub _ _ Hns Hsc) (sibling_names_sub _ _ Hsn Hsc) Hnsc).
+Qed.
+
+(** ---- the subcommand section, structurally ---- *)
+Lemma zipd_in_fst {A B} (dflt : B) (l : list A) : forall m a b, In (a, b) (zipd dflt l m) -> In a l.
+Proof.
+  induction l as [|h t IH]; intros m a b; cbn [zipd In]; [tauto|].
+  intros [E|Hin]; [inversion E; left; reflexivity|right; eapply IH; exact Hin].
+Qed.
+
+Lemma zipd_functional {A B C} (f : A -> C) (dflt : B) (l : list A) : forall m a b b',
+  NoDup (map f l) -> In (a, b) (zipd dflt l m) -> In (a, b') (zipd dflt l m) -> b = b'.
+Proof.
+  induction l as [|h t IH]; intros m a b b' Hn; cbn [zipd In]; [tauto|].
+  cbn [map] in Hn. inversion Hn as [|x y Hnot Hn']; subst.
+  intros [E|Hin] [E'|Hin'].
+  - inversion E; inversion E'; subst. reflexivity.
+  - inversion E; subst. exfalso. apply Hnot. apply in_map. eapply zipd_in_fst; exact Hin'.
+  - inversion E'; subst. exfalso. apply Hnot. apply in_map. eapply zipd_in_fst; exact Hin.
+  - eapply IH; eauto.
+Qed.
+
+Lemma flat_map_zipd_fst {A B C} (g : A -> list C) (dflt : B) (l : list A) : forall m,
+  flat_map g l = flat_map (fun q : A * B => g (fst q)) (zipd dflt l m).
+Proof. induction l as [|h t IH]; intros m; [reflexivity|]. cbn [zipd flat_map fst]. now rewrite <- IH. Qed.
+
+Lemma parser_of_d_unfold c d b :
+  parser_of_d c d b =
+  if beq b (bin_or_default c) then Some (c, d)
+  else first_some (fun q : cmd * cdesc => parser_of_d (fst q) (snd q) b) (zipd cd0 (c_subs c) (cd_subs d)).
+Proof.
+  destruct c as [n al args subs bin h v s g]. cbn [parser_of_d c_subs]. unfold bin_or_default. cbn [c_bin].
+  destruct (beq b match bin with Some b0 => b0 | None => [] end); [reflexivity|].
+  generalize (cd_subs d). induction subs as [|x t IH]; intros dl; [reflexivity|].
+  cbn [zipd first_some fst snd]. destruct (parser_of_d x (hd cd0 dl) b); [reflexivity|apply IH].
+Qed.
+
+(** the lookup by the bin name of a child returns that child, with its own decoration *)
+Lemma parser_of_d_child p d pb sc sd :
+  linked p -> c_bin p = Some pb -> nospace p -> sibling_names p ->
+  In (sc, sd) (zipd cd0 (c_subs p) (cd_subs d)) ->
+  parser_of_d p d (pb ++ [32] ++ c_name sc) = Some (sc, sd).
+Proof.
+  intros Hl Hb Hns Hsn Hin. pose proof (zipd_in_fst _ _ _ _ _ Hin) as Hsc.
+  pose proof (linked_child_bin _ _ _ Hl Hb Hsc) as Esc.
+  assert (Hself : forall sd', parser_of_d sc sd' (pb ++ [32] ++ c_name sc) = Some (sc, sd')).
+  { intros sd'. rewrite parser_of_d_unfold. unfold bin_or_default. rewrite Esc, beq_refl. reflexivity. }
+  rewrite parser_of_d_unfold. rewrite beq_neq.
+  2:{ unfold bin_or_default. rewrite Hb. intros E. symmetry in E. revert E. apply app_not_self. discriminate. }
+  apply (first_some_only _ _ (sc, sd)); [exact Hin|apply Hself|].
+  intros [x xd] Hx. cbn [fst snd].
+  destruct (parser_of_d x xd (pb ++ [32] ++ c_name sc)) as [[m md]|] eqn:Em; [right|left; reflexivity].
+  pose proof (zipd_in_fst _ _ _ _ _ Hx) as Hx'.
+  destruct (parser_of_sound _ _ _ (parser_of_d_inv _ _ _ _ _ Em)) as [Hm Hbm].
+  assert (x = sc).
+  { apply (same_child p pb x sc m sc Hl Hb Hns Hsn Hx' Hsc Hm (or_introl eq_refl)).
+    rewrite Hbm. unfold bin_or_default. rewrite Esc. reflexivity. }
+  subst x.
+  assert (xd = sd) by (apply (zipd_functional c_name cd0 (c_subs p) (cd_subs d) sc xd sd); [apply Hsn; left; reflexivity|exact Hx|exact Hin]).
+  subst xd. rewrite Hself in Em. exact (eq_sym Em).
+Qed.
+
+Definition args_block (c : cmd) (d : cdesc) (g : option cmd) : list zpiece :=
+  match get_args_of c d g with Some x => x | None => [] end.
+Lemma get_args_of_block c d g : c_bin c <> None -> get_args_of c d g = Some (args_block c d g).
+Proof.
+  intros Hb. unfold args_block. destruct (get_args_of c d g) eqn:E; [reflexivity|].
+  exfalso. revert E. apply get_args_of_total. exact Hb.
+Qed.
+
+(** one arm of [case $line[pos] in]: the label, the [_arguments] block of the subcommand, its own subcommand section *)
+Definition arm (blk ch : list zpiece) (w : bytes) : list zpiece :=
+  zjoin nl ([[Zx (lit "(" ++ w ++ lit ")")]]
+            ++ (if negb (is_nil blk) then [blk] else [])
+            ++ (if negb (is_nil ch) then [ch] else [])
+            ++ [[Zx (lit ";;")]]).
+
+(** what [get_subcommands_of] writes when every lookup returns the child it was made for: structural in the tree *)
+Fixpoint zspec_subs (p : cmd) (d : cdesc) {struct p} : list zpiece :=
+  match p with
+  | mkCmd name _ _ subs bin _ _ _ _ =>
+      if is_nil subs then [] else
+      case_block name (space_to_hyphen (match bin with Some b => b | None => [] end))
+                 (dec (N.of_nat (List.length (get_positionals p)) + 1))
+                 (zjoin nl ((fix go (l : list cmd) (dl : list cdesc) {struct l} : list (list zpiece) :=
+                               match l with
+                               | [] => []
+                               | sc :: t =>
+                                   map (arm (args_block sc (hd cd0 dl) (Some p)) (zspec_subs sc (hd cd0 dl)))
+                                       (get_name_and_visible_aliases sc)
+                                   ++ go t (tl dl)
+                               end) subs (cd_subs d)))
+  end.
+
+Definition arms_of (p : cmd) (q : cmd * cdesc) : list (list zpiece) :=
+  map (arm (args_block (fst q) (snd q) (Some p)) (zspec_subs (fst q) (snd q))) (get_name_and_visible_aliases (fst q)).
+
+Lemma zspec_subs_unfold p d :
+  zspec_subs p d =
+  if is_nil (c_subs p) then [] else
+  case_block (c_name p) (space_to_hyphen (bin_or_default p)) (dec (N.of_nat (List.length (get_positionals p)) + 1))
+             (zjoin nl (flat_map (arms_of p) (zipd cd0 (c_subs p) (cd_subs d)))).
+Proof.
+  destruct p as [n al args subs bin h v s g]. cbn [zspec_subs c_subs c_name]. unfold bin_or_default. cbn [c_bin].
+  destruct (is_nil subs); [reflexivity|]. f_equal. f_equal.
+  set (p := mkCmd n al args subs bin h v s g).
+  generalize (cd_subs d). induction subs as [|x t IH] in p |- *; intros dl; [reflexivity|].
+  cbn [zipd flat_map]. unfold arms_of at 1. cbn [fst snd]. f_equal. apply IH.
+Qed.
+
+Lemma map_opt_app {A B} (f : A -> option B) a b x y :
+  map_opt f a = Some x -> map_opt f b = Some y -> map_opt f (a ++ b) = Some (x ++ y).
+Proof.
+  revert x. induction a as [|h t IH]; intros x Ha Hb.
+  - rewrite map_opt_nil in Ha. inversion Ha; subst. exact Hb.
+  - cbn [app]. rewrite map_opt_cons in *. destruct (f h) as [r|]; [|discriminate].
+    destruct (map_opt f t) as [rt|] eqn:Et; [|discriminate]. inversion Ha; subst.
+    rewrite (IH rt eq_refl Hb). reflexivity.
+Qed.
+
+Lemma map_opt_map_some {A B} (f : A -> option B) (g : A -> B) l :
+  (forall x, In x l -> f x = Some (g x)) -> map_opt f l = Some (map g l).
+Proof.
+  induction l as [|h t IH]; intros H; [reflexivity|].
+  rewrite map_opt_cons, (H h (or_introl eq_refl)), IH; [reflexivity|]. intros x Hx. apply H. right; exact Hx.
+Qed.
+
+Lemma map_opt_map_map {A B C} (f : A -> option B) (k : C -> A) (g : C -> B) l :
+  (forall x, In x l -> f (k x) = Some (g x)) -> map_opt f (map k l) = Some (map g l).
+Proof.
+  induction l as [|h t IH]; intros H; [reflexivity|].
+  cbn [map]. rewrite map_opt_cons, (H h (or_introl eq_refl)), IH; [reflexivity|]. intros x Hx. apply H. right; exact Hx.
+Qed.
+
+Lemma map_opt_flat_map {A B C} (f : A -> option B) (g : C -> list A) (h : C -> list B) l :
+  (forall q, In q l -> map_opt f (g q) = Some (h q)) -> map_opt f (flat_map g l) = Some (flat_map h l).
+Proof.
+  induction l as [|q t IH]; intros H; [reflexivity|].
+  cbn [flat_map]. apply map_opt_app; [apply H; left; reflexivity|apply IH; intros x Hx; apply H; right; exact Hx].
+Qed.
+
+Lemma subcommands_exact p :
+  (forall sc, In sc (c_subs p) -> c_bin sc <> None) ->
+  subcommands p = Some (flat_map (fun sc => map (fun w => (w, bin_or_default sc)) (get_name_and_visible_aliases sc)) (c_subs p)).
+Proof.
+  intros Hb. unfold subcommands.
+  assert (E : map_opt sc_entries (c_subs p) =
+              Some (map (fun sc => map (fun w => (w, bin_or_default sc)) (get_name_and_visible_aliases sc)) (c_subs p))).
+  { apply map_opt_map_some. intros sc Hin. unfold sc_entries, bin_or_default. specialize (Hb sc Hin).
+    destruct (c_bin sc) as [b|]; [reflexivity|contradiction]. }
+  rewrite E. f_equal. symmetry. apply flat_map_concat_map.
+Qed.
+
+(** in the class, [get_subcommands_of] computes the structural specification (with any sufficient fuel) *)
+Theorem get_subcommands_of_spec : forall f p d pb,
+  c_bin p = Some pb -> linked p -> nospace p -> sibling_names p -> (depth p <= f)%nat ->
+  get_subcommands_of f p d = Some (zspec_subs p d).
+Proof.
+  induction f as [|f IH]; intros p d pb Hb Hl Hns Hsn Hdepth.
+  - pose proof (depth_pos p). lia.
+  - cbn [get_subcommands_of]. rewrite zspec_subs_unfold. unfold has_subcommands. rewrite Bool.negb_involutive.
+    destruct (is_nil (c_subs p)) eqn:Enil; [reflexivity|].
+    rewrite subcommands_exact.
+    2:{ intros sc Hin. rewrite (linked_child_bin _ _ _ Hl Hb Hin). discriminate. }
+    rewrite (flat_map_zipd_fst _ cd0 (c_subs p) (cd_subs d)).
+    erewrite map_opt_flat_map with (h := arms_of p).
+    + rewrite Hb. unfold bin_or_default. rewrite Hb. reflexivity.
+    + intros [sc sd] Hin. cbn [fst]. unfold arms_of. cbn [fst snd].
+      pose proof (zipd_in_fst _ _ _ _ _ Hin) as Hsc.
+      pose proof (linked_child_bin _ _ _ Hl Hb Hsc) as Esc.
+      apply map_opt_map_map. intros w Hw. cbn [fst snd]. unfold bin_or_default. rewrite Esc.
+      rewrite (parser_of_d_child p d pb sc sd Hl Hb Hns Hsn Hin).
+      rewrite (get_args_of_block sc sd (Some p)) by (rewrite Esc; discriminate).
+      rewrite (IH sc sd _ Esc (linked_sub _ _ Hl Hsc) (nospace_sub _ _ Hns Hsc) (sibling_names_sub _ _ Hsn Hsc)).
+      * reflexivity.
+      * pose proof (desc_depth _ _ (desc_child _ _ Hsc)). lia.
+Qed.
+
+(** ---- contiguous parts ---- *)
+Definition sublist {A} (a l : list A) : Prop := exists pre post, l = pre ++ a ++ post.
+
+Lemma sublist_refl {A} (a : list A) : sublist a a.
+Proof. exists [], []. rewrite app_nil_r. reflexivity. Qed.
+Lemma sublist_trans {A} (a b c : list A) : sublist a b -> sublist b c -> sublist a c.
+Proof.
+  intros (p1 & q1 & ->) (p2 & q2 & ->). exists (p2 ++ p1), (q1 ++ q2). rewrite <- !app_assoc. reflexivity.
+Qed.
+Lemma sublist_app_l {A} (a b x : list A) : sublist a b -> sublist a (x ++ b).
+Proof. intros (p & q & ->). exists (x ++ p), q. rewrite <- app_assoc. reflexivity. Qed.
+Lemma sublist_app_r {A} (a b x : list A) : sublist a b -> sublist a (b ++ x).
+Proof. intros (p & q & ->). exists p, (q ++ x). rewrite <- !app_assoc. reflexivity. Qed.
+Lemma sublist_here {A} (a x y : list A) : sublist a (x ++ a ++ y).
+Proof. exists x, y. reflexivity. Qed.
+Lemma sublist_nonnil {A} (a l : list A) : sublist a l -> a <> [] -> l <> [].
+Proof. intros (p & q & ->) Ha E. apply app_eq_nil in E. destruct E as [_ E]. apply app_eq_nil in E. tauto. Qed.
+Lemma sublist_flat_map {A B} (f : A -> list B) a l : sublist a l -> sublist (flat_map f a) (flat_map f l).
+Proof. intros (p & q & ->). exists (flat_map f p), (flat_map f q). rewrite !flat_map_app. reflexivity. Qed.
+Lemma sublist_in {A} (a l : list A) x : sublist a l -> In x a -> In x l.
+Proof. intros (p & q & ->) H. apply in_or_app. right. apply in_or_app. left. exact H. Qed.
+
+Lemma zjoin_cons sep (x : list zpiece) t :
+  zjoin sep (x :: t) = match t with [] => x | _ :: _ => x ++ sep ++ zjoin sep t end.
+Proof. reflexivity. Qed.
+
+Lemma sublist_zjoin sep (x : list zpiece) l : In x l -> sublist x (zjoin sep l).
+Proof.
+  induction l as [|h t IH]; intros Hin; [destruct Hin|].
+  rewrite zjoin_cons. destruct Hin as [->|Hin].
+  - destruct t; [apply sublist_refl|]. exists [], (sep ++ zjoin sep (l :: t)). reflexivity.
+  - destruct t as [|y t']; [destruct Hin|]. apply sublist_app_l, sublist_app_l. apply IH. exact Hin.
+Qed.
+
+(** a part of the pieces is a part of the bytes *)
+Lemma sublist_render a l : sublist a l -> sublist (zrender a) (zrender l).
+Proof. apply sublist_flat_map. Qed.
+
+Lemma intercalate_sublist sep (x : bytes) l : In x l -> sublist x (intercalate sep l).
+Proof.
+  induction l as [|h t IH]; intros Hin; [destruct Hin|].
+  cbn [intercalate]. destruct t as [|y t'].
+  - destruct Hin as [->|[]]. apply sublist_refl.
+  - destruct Hin as [->|Hin].
+    + exists [], (sep ++ intercalate sep (y :: t')). reflexivity.
+    + apply sublist_app_l, sublist_app_l. apply IH. exact Hin.
+Qed.
+
+Lemma zipd_has {A B} (dflt : B) (l : list A) a : In a l -> forall m, exists b, In (a, b) (zipd dflt l m).
+Proof.
+  induction l as [|h t IH]; intros Hin m; [destruct Hin|]. cbn [zipd].
+  destruct Hin as [->|Hin]; [eexists; left; reflexivity|].
+  destruct (IH Hin (tl m)) as [b Hb]. exists b. right; exact Hb.
+Qed.
+
+(** ---- one level: the [_arguments] block mentions every spelling ---- *)
+Lemma args_block_shape c d g :
+  c_bin c <> None ->
+  exists segs, args_block c d g = zjoin nl (args_header :: segs) /\
+    (write_opts_of c d g <> [] -> In (write_opts_of c d g) segs) /\
+    (write_flags_of c d g <> [] -> In (write_flags_of c d g) segs) /\
+    (write_positionals_of c d <> [] -> In (write_positionals_of c d) segs) /\
+    (has_subcommands c = true ->
+       In [Zx (lit """:: :_" ++ space_to_dd (bin_or_default c) ++ lit "_commands"" \")] segs /\
+       In [Zx (lit """*::: :->" ++ c_name c ++ lit """ \")] segs).
+Proof.
+  intros Hb. unfold args_block, get_args_of, bin_or_default.
+  assert (Hnil : forall x : list zpiece, x <> [] -> In x (if negb (is_nil x) then [x] else [])).
+  { intros [|? ?] H; [contradiction|left; reflexivity]. }
+  set (A := if negb (is_nil (write_opts_of c d g)) then [write_opts_of c d g] else []).
+  set (B := if negb (is_nil (write_flags_of c d g)) then [write_flags_of c d g] else []).
+  set (C := if negb (is_nil (write_positionals_of c d)) then [write_positionals_of c d] else []).
+  assert (HA : write_opts_of c d g <> [] -> forall T, In (write_opts_of c d g) ((A ++ B ++ C) ++ T)).
+  { intros H T. apply in_or_app. left. apply in_or_app. left. apply Hnil. exact H. }
+  assert (HB : write_flags_of c d g <> [] -> forall T, In (write_flags_of c d g) ((A ++ B ++ C) ++ T)).
+  { intros H T. apply in_or_app. left. apply in_or_app. right. apply in_or_app. left. apply Hnil. exact H. }
+  assert (HC : write_positionals_of c d <> [] -> forall T, In (write_positionals_of c d) ((A ++ B ++ C) ++ T)).
+  { intros H T. apply in_or_app. left. apply in_or_app. right. apply in_or_app. right. apply Hnil. exact H. }
+  destruct (has_subcommands c); destruct (c_bin c) as [b|]; try contradiction.
+  - eexists ((A ++ B ++ C) ++ _). split; [reflexivity|].
+    split; [intros H; apply HA; exact H|]. split; [intros H; apply HB; exact H|]. split; [intros H; apply HC; exact H|].
+    intros _. split; apply in_or_app; right; [left; reflexivity|right; left; reflexivity].
+  - eexists ((A ++ B ++ C) ++ _). split; [reflexivity|].
+    split; [intros H; apply HA; exact H|]. split; [intros H; apply HB; exact H|]. split; [intros H; apply HC; exact H|].
+    discriminate.
+Qed.
+
+Lemma in_block c d g x lines :
+  c_bin c <> None -> In x lines -> x <> [] ->
+  (zjoin nl lines = write_opts_of c d g \/ zjoin nl lines = write_flags_of c d g \/
+   zjoin nl lines = write_positionals_of c d) ->
+  sublist x (args_block c d g).
+Proof.
+  intros Hb Hin Hx Hw. pose proof (sublist_zjoin nl x lines Hin) as Hs.
+  pose proof (sublist_nonnil _ _ Hs Hx) as Hn.
+  destruct (args_block_shape c d g Hb) as (segs & -> & Ho & Hf & Hp & _).
+  eapply sublist_trans; [exact Hs|]. apply sublist_zjoin. right.
+  destruct Hw as [E|[E|E]]; rewrite E in *; auto.
+Qed.
+
+(** options: one spec line per short and per long spelling the accessors return *)
+Lemma opt_lines_nonnil c g p line : In line (opt_lines c g p) -> line <> [].
+Proof.
+  unfold opt_lines. intros H. apply in_app_or in H. destruct H as [H|H].
+  - destruct (get_short_and_visible_aliases (fst p)); [|destruct H]. apply in_map_iff in H. destruct H as (s & <- & _). discriminate.
+  - destruct (get_long_and_visible_aliases (fst p)); [|destruct H]. apply in_map_iff in H. destruct H as (s & <- & _). discriminate.
+Qed.
+
+Theorem block_opt_lines c d g a ad line :
+  c_bin c <> None -> In (a, ad) (zipd ad0 (c_args c) (cd_args d)) -> is_opt (a, ad) = true ->
+  In line (opt_lines c g (a, ad)) -> sublist line (args_block c d g).
+Proof.
+  intros Hb Hin Ho Hl. eapply (in_block c d g line); [exact Hb| |eapply opt_lines_nonnil; exact Hl|left; reflexivity].
+  apply in_flat_map. exists (a, ad). split; [apply filter_In; split; assumption|exact Hl].
+Qed.
+
+Lemma opt_lines_short c g p shorts s :
+  get_short_and_visible_aliases (fst p) = Some shorts -> In s shorts -> In (opt_short_line c g p s) (opt_lines c g p).
+Proof. intros E Hin. unfold opt_lines. rewrite E. apply in_or_app. left. apply in_map. exact Hin. Qed.
+Lemma opt_lines_long c g p longs l :
+  get_long_and_visible_aliases (fst p) = Some longs -> In l longs -> In (opt_long_line c g p l) (opt_lines c g p).
+Proof. intros E Hin. unfold opt_lines. rewrite E. apply in_or_app. right. apply in_map. exact Hin. Qed.
+
+(** flags: the short, the visible short aliases (when there is a short), the long, the visible aliases (when there is a long) *)
+Definition flag_spellings (a : arg) : list (bytes * bytes) :=
+  (match a_short a with
+   | Some s => (lit "-", s) :: map (fun x => (lit "-", x)) (match get_visible_short_aliases a with Some al => al | None => [] end)
+   | None => [] end)
+  ++ (match a_long a with
+      | Some l => (lit "--", l) :: map (fun x => (lit "--", x)) (match get_visible_aliases a with Some al => al | None => [] end)
+      | None => [] end).
+
+Lemma flag_lines_spellings c g p :
+  flag_lines c g p = map (fun x : bytes * bytes => flag_line c g p (fst x) (snd x)) (flag_spellings (fst p)).
+Proof.
+  unfold flag_lines, flag_spellings. rewrite map_app. f_equal.
+  - destruct (a_short (fst p)); [|reflexivity]. cbn [map fst snd]. f_equal.
+    destruct (get_visible_short_aliases (fst p)); [|reflexivity]. rewrite map_map. reflexivity.
+  - destruct (a_long (fst p)); [|reflexivity]. cbn [map fst snd]. f_equal.
+    destruct (get_visible_aliases (fst p)); [|reflexivity]. rewrite map_map. reflexivity.
+Qed.
+
+Theorem block_flag_lines c d g a ad dashes name :
+  c_bin c <> None -> In (a, ad) (zipd ad0 (c_args c) (cd_args d)) -> is_flag (a, ad) = true ->
+  In (dashes, name) (flag_spellings a) -> sublist (flag_line c g (a, ad) dashes name) (args_block c d g).
+Proof.
+  intros Hb Hin Hf Hs. eapply (in_block c d g _); [exact Hb| |discriminate|right; left; reflexivity].
+  apply in_flat_map. exists (a, ad). split; [apply filter_In; split; assumption|].
+  rewrite flag_lines_spellings. cbn [fst]. apply in_map_iff. exists (dashes, name). split; [reflexivity|exact Hs].
+Qed.
+
+(** positionals: every positional that takes at most one value has its line (a multi-valued one is skipped once a
+    catch-all was written: documented in write_positionals_of) *)
+Lemma positional_lines_single hs : forall l ce p,
+  In p l -> (1 <? a_max_values (fst p)) = false ->
+  exists card, In (positional_line card p) (positional_lines hs ce l).
+Proof.
+  induction l as [|q t IH]; intros ce p Hin Hm; [destruct Hin|].
+  cbn [positional_lines]. destruct Hin as [->|Hin].
+  - rewrite Hm. rewrite Bool.orb_false_r. unfold arg_is_last. rewrite Bool.andb_false_r. cbn [andb].
+    destruct (negb (a_required (fst p))); eexists; left; reflexivity.
+  - destruct (ce && (arg_is_last (fst q) || (1 <? a_max_values (fst q)))); [apply IH; assumption|].
+    destruct ((1 <? a_max_values (fst q)) && negb hs).
+    + unfold arg_terminator. destruct (IH true p Hin Hm) as [card Hc]. exists card. right. exact Hc.
+    + destruct (negb (a_required (fst q))); destruct (IH ce p Hin Hm) as [card Hc]; exists card; right; exact Hc.
+Qed.
+
+Theorem block_positional_line c d g a ad :
+  c_bin c <> None -> In (a, ad) (zipd ad0 (c_args c) (cd_args d)) -> a_is_positional a = true ->
+  (1 <? a_max_values a) = false ->
+  exists card, sublist (positional_line card (a, ad)) (args_block c d g).
+Proof.
+  intros Hb Hin Hp Hm.
+  destruct (positional_lines_single (has_subcommands c) (filter is_pos (zipd ad0 (c_args c) (cd_args d))) false (a, ad))
+    as [card Hc]; [apply filter_In; split; [exact Hin|exact Hp]|exact Hm|].
+  exists card. eapply (in_block c d g _); [exact Hb|exact Hc|discriminate|right; right; reflexivity].
+Qed.
+
+(** possible values: every non-hidden value is written -- raw in the [(v1 v2)] form, through [escape_value]
+    in the [((v1\:"tip" ...))] form *)
+Lemma in_zjoin sep (x : list zpiece) l q : In x l -> In q x -> In q (zjoin sep l).
+Proof. intros Hx Hq. eapply sublist_in; [apply sublist_zjoin; exact Hx|exact Hq]. Qed.
+
+Theorem value_completion_mentions a ad vs pv :
+  possible_values a = Some vs -> In pv vs -> pv_hide pv = false ->
+  exists val x, value_completion (a, ad) = Some val /\ In (Zx x) val /\
+    (sublist (pv_name pv) x \/ sublist (zsh_escape_value (pv_name pv)) x).
+Proof.
+  intros Hv Hin Hh. unfold value_completion. cbn [fst snd]. rewrite Hv.
+  destruct (existsb _ _).
+  - destruct (zipd_has None vs pv Hin (ad_pvh ad)) as [h Hq].
+    eexists. exists (zsh_escape_value (pv_name pv) ++ lit "\:"""). split; [reflexivity|]. split.
+    + apply in_or_app. right. apply in_or_app. left.
+      apply (in_zjoin nl (tip_entry (pv, h))).
+      * apply in_map. apply filter_In. split; [exact Hq|]. unfold pv_shown. cbn [fst]. rewrite Hh. reflexivity.
+      * left. reflexivity.
+    + right. exists [], (lit "\:"""). reflexivity.
+  - eexists. eexists. split; [reflexivity|]. split; [left; reflexivity|]. left.
+    apply sublist_app_l, sublist_app_r. apply intercalate_sublist. apply in_map. apply filter_In. split; [exact Hin|].
+    rewrite Hh. reflexivity.
+Qed.
+
+(** an option that REQUIRES a value carries its value list on every one of its lines *)
+Lemma opt_vc_values p val :
+  a_min_values (fst p) <> 0 -> value_completion p = Some val -> sublist (Zx (lit ": :") :: val) (opt_vc p).
+Proof.
+  intros Hm Hv. unfold opt_vc. rewrite Hv.
+  destruct (N.to_nat (a_min_values (fst p))) as [|k] eqn:E; [lia|].
+  cbn [repeat List.concat]. exists [], (List.concat (repeat (Zx (lit ": :") :: val) k)). reflexivity.
+Qed.
+
+Theorem opt_line_values c g a ad vs pv line :
+  a_min_values a <> 0 -> possible_values a = Some vs -> In pv vs -> pv_hide pv = false ->
+  In line (opt_lines c g (a, ad)) ->
+  exists x, In (Zx x) line /\ (sublist (pv_name pv) x \/ sublist (zsh_escape_value (pv_name pv)) x).
+Proof.
+  intros Hm Hv Hin Hh Hl.
+  destruct (value_completion_mentions a ad vs pv Hv Hin Hh) as (val & x & Ev & Hx & Hs).
+  exists x. split; [|exact Hs].
+  pose proof (opt_vc_values (a, ad) val Hm Ev) as Hvc.
+  assert (Hx' : In (Zx x) (opt_vc (a, ad))) by (eapply sublist_in; [exact Hvc|right; exact Hx]).
+  unfold opt_lines in Hl. apply in_app_or in Hl. destruct Hl as [Hl|Hl].
+  - destruct (get_short_and_visible_aliases (fst (a, ad))); [|destruct Hl]. apply in_map_iff in Hl.
+    destruct Hl as (s & <- & _). unfold opt_short_line. apply in_or_app. right. apply in_or_app. left. exact Hx'.
+  - destruct (get_long_and_visible_aliases (fst (a, ad))); [|destruct Hl]. apply in_map_iff in Hl.
+    destruct Hl as (s & <- & _). unfold opt_long_line. apply in_or_app. right. apply in_or_app. left. exact Hx'.
+Qed.
+
+Theorem positional_line_values card a ad vs pv :
+  possible_values a = Some vs -> In pv vs -> pv_hide pv = false ->
+  exists x, In (Zx x) (positional_line card (a, ad)) /\
+            (sublist (pv_name pv) x \/ sublist (zsh_escape_value (pv_name pv)) x).
+Proof.
+  intros Hv Hin Hh. destruct (value_completion_mentions a ad vs pv Hv Hin Hh) as (val & x & Ev & Hx & Hs).
+  exists x. split; [|exact Hs]. unfold positional_line. rewrite Ev.
+  apply in_or_app. right. apply in_or_app. right. apply in_or_app. right. apply in_or_app. left. exact Hx.
 Qed.
